@@ -23,6 +23,9 @@
 
 #include "Atomics.h"
 #include <string.h>
+#ifdef RKCOMMON_VERIF
+#include "../../../verif/hooks.h"
+#endif
 
 
 namespace enki
@@ -140,6 +143,9 @@ namespace enki
             readCount  = m_ReadCount;
         }
 
+#ifdef RKCOMMON_VERIF
+        RKCOMMON_VERIF_POINT("pipe.reader_cas_won", this);
+#endif
         // we update the read index using an atomic add, as we've only read one piece of data.
         // this ensure consistency of the read index, and the above loop ensures readers
         // only read from unread data
@@ -188,6 +194,9 @@ namespace enki
             }
         }
 
+#ifdef RKCOMMON_VERIF
+        RKCOMMON_VERIF_POINT("pipe.writer_cas_won", this);
+#endif
         // now read data, ensuring we do so after above reads & CAS
         *pOut = m_Buffer[ actualReadIndex ];
 
@@ -231,6 +240,9 @@ namespace enki
         // otherwise another thread might read before it's finished
         BASE_MEMORYBARRIER_RELEASE();
 
+#ifdef RKCOMMON_VERIF
+        RKCOMMON_VERIF_POINT("pipe.before_publish", this);
+#endif
         // 32-bit aligned stores are atomic, and the writer controls the write index
         ++writeIndex;
         m_WriteIndex = writeIndex;
